@@ -29,8 +29,8 @@ import (
 	"github.com/elnosh/gonuts/cashu/nuts/nut07"
 	"github.com/elnosh/gonuts/cashu/nuts/nut09"
 	"github.com/elnosh/gonuts/crypto"
-	"github.com/elnosh/gonuts/wallet/storage"
 	v "github.com/elnosh/gonuts/verifrt"
+	"github.com/elnosh/gonuts/wallet/storage"
 )
 
 // ---------------------------------------------------------------------------------------- fake WalletDB
@@ -250,19 +250,19 @@ type vhReq struct {
 }
 
 type vhMint struct {
-	Keys    map[string]map[uint64]*secp256k1.PrivateKey
-	Ppk     map[string]uint
-	Active  string
-	Spent   []string // secrets of consumed inputs, in order
+	Keys         map[string]map[uint64]*secp256k1.PrivateKey
+	Ppk          map[string]uint
+	Active       string
+	Spent        []string // secrets of consumed inputs, in order
 	SpentAmounts []uint64
-	Signed  []cashu.BlindedMessage
-	Sigs    cashu.BlindedSignatures
-	Reqs    []vhReq
-	MintQ   map[string]*vhMintQuote
-	MeltQ   map[string]*vhMeltQuote
-	Refuse  bool // answer the next state-changing request with an error (honest refusal)
-	srv     *httptest.Server
-	URL     string
+	Signed       []cashu.BlindedMessage
+	Sigs         cashu.BlindedSignatures
+	Reqs         []vhReq
+	MintQ        map[string]*vhMintQuote
+	MeltQ        map[string]*vhMeltQuote
+	Refuse       bool // answer the next state-changing request with an error (honest refusal)
+	srv          *httptest.Server
+	URL          string
 }
 
 type vhMintQuote struct {
@@ -277,15 +277,30 @@ type vhMeltQuote struct {
 
 var vhTheMint *vhMint
 
+var vhDerivedIds = false // keyset ids derived from the keys (NUT-02), needed where the wallet re-derives them (restore)
+
 func vhNewMint(ppkActive, ppkInactive uint) *vhMint {
-	m := &vhMint{Keys: map[string]map[uint64]*secp256k1.PrivateKey{}, Ppk: map[string]uint{vhKsIds[0]: ppkActive, vhKsIds[1]: ppkInactive}, Active: vhKsIds[0],
+	m := &vhMint{Keys: map[string]map[uint64]*secp256k1.PrivateKey{}, Ppk: map[string]uint{},
 		MintQ: map[string]*vhMintQuote{}, MeltQ: map[string]*vhMeltQuote{}, URL: "http://vhmint"}
-	for _, id := range vhKsIds {
-		m.Keys[id] = map[uint64]*secp256k1.PrivateKey{}
+	ids := []string{"00a1a1a1a1a1a1a1", "00b2b2b2b2b2b2b2"}
+	for n, name := range ids {
+		keys := map[uint64]*secp256k1.PrivateKey{}
+		pubs := crypto.PublicKeys{}
 		for i := 0; i < vhMaxOrder; i++ {
-			m.Keys[id][uint64(1)<<uint(i)] = v.Priv(fmt.Sprintf("mintkey.%s.%d", id, i))
+			k := v.Priv(fmt.Sprintf("mintkey.%s.%d", name, i))
+			keys[uint64(1)<<uint(i)] = k
+			pubs[uint64(1)<<uint(i)] = k.PubKey()
 		}
+		id := name
+		if vhDerivedIds {
+			id = crypto.DeriveKeysetId(pubs)
+		}
+		ids[n] = id
+		m.Keys[id] = keys
 	}
+	vhKsIds = ids
+	m.Active = ids[0]
+	m.Ppk[ids[0]], m.Ppk[ids[1]] = ppkActive, ppkInactive
 	vhTheMint = m
 	if v.Native() {
 		m.srv = httptest.NewServer(http.HandlerFunc(func(w http.ResponseWriter, r *http.Request) {
